@@ -514,8 +514,20 @@ impl AlternativePath {
     ///   - [(0, 0)] and [(0, 0), (1, 0)] conflict (second is nested within first)
     ///   - [(0, 0)] and [(0, 1)] don't conflict (different alternatives at depth 0)
     fn conflicts_with(&self, other: &AlternativePath) -> bool {
-        let min_len = self.segments.len().min(other.segments.len());
-        self.segments[..min_len] == other.segments[..min_len]
+        // The first component of a segment identifies the enclosing group (0 = the whole
+        // pattern). Walk down the groups the two locations share: they are in different
+        // alternatives exactly if some shared group has them on different sides of a `|`.
+        for (a, b) in self.segments.iter().zip(other.segments.iter()) {
+            if a.0 != b.0 {
+                // Different groups from here on: both are in the same alternative of
+                // everything they share, so both might participate.
+                return true;
+            }
+            if a.1 != b.1 {
+                return false;
+            }
+        }
+        true
     }
 }
 
@@ -2101,9 +2113,12 @@ where
     fn collect_named_group_locations(
         &mut self,
     ) -> Result<HashMap<String, Vec<AlternativePath>>, Error> {
-        // Track parenthesis depth and alternative index at each depth
-        let mut paren_depth: usize = 0;
-        // Map from depth to current alternative index at that depth
+        // Stack of the currently open groups, each identified by a unique id (0 = the whole
+        // pattern). Using the nesting depth here would confuse sibling groups such as
+        // (?:(?<a>x)|y)(?:z|(?<a>w)), whose named groups are not in alternatives of each other.
+        let mut open_groups: Vec<usize> = vec![0];
+        let mut next_group_id: usize = 1;
+        // Map from group id to the current alternative index inside that group
         let mut alt_indices: HashMap<usize, usize> = HashMap::new();
         alt_indices.insert(0, 0);
 
@@ -2163,10 +2178,10 @@ where
                     }
 
                     if let Some(name) = group_name {
-                        // Build current alternative path from depth 0 to current depth.
+                        // Build current alternative path through all enclosing groups.
                         let mut segments = Vec::new();
-                        for d in 0..=paren_depth {
-                            segments.push((d, *alt_indices.get(&d).unwrap_or(&0)));
+                        for id in open_groups.iter() {
+                            segments.push((*id, *alt_indices.get(id).unwrap_or(&0)));
                         }
 
                         // Record this location.
@@ -2192,19 +2207,21 @@ where
                     }
 
                     // Entering a new group.
-                    paren_depth += 1;
-                    alt_indices.insert(paren_depth, 0);
+                    open_groups.push(next_group_id);
+                    alt_indices.insert(next_group_id, 0);
+                    next_group_id += 1;
                 }
                 Some(')') => {
                     // Exiting a group
-                    if paren_depth > 0 {
-                        alt_indices.remove(&paren_depth);
-                        paren_depth -= 1;
+                    if open_groups.len() > 1 {
+                        let id = open_groups.pop().unwrap();
+                        alt_indices.remove(&id);
                     }
                 }
                 Some('|') => {
-                    // Moving to next alternative at current depth
-                    *alt_indices.entry(paren_depth).or_insert(0) += 1;
+                    // Moving to next alternative of the innermost open group
+                    let id = *open_groups.last().unwrap();
+                    *alt_indices.entry(id).or_insert(0) += 1;
                 }
                 Some(_) => continue,
                 None => break,
